@@ -237,8 +237,15 @@ def run_case(case):
             except Exception:       # noqa: BLE001 -- the decoy configuration is not what this case decides
                 pass
             geo["run_after_a_kernel_with"] = other
-        kern = EventKernel(generator, ants, ice_model=ice, ray_tracer=tracer, signal_model=RecModel, signal_times=times, event_writer=wr, triggers=triggers,
+        regrid_after = bool(case["salt"] % 3 == 0)
+        kern = EventKernel(generator, ants, ice_model=ice, ray_tracer=tracer, signal_model=RecModel,
+                           signal_times=(np.linspace(-3e-8, 9e-8, 77) if regrid_after else times), event_writer=wr, triggers=triggers,
                            offcone_max=off, weight_min=wm_arg, attenuation_interpolation=ai)
+        if regrid_after:
+            # the configured time grid is a public attribute: re-configured before the first event, everything the kernel hands out
+            # (pulses and the empty pulses of off-cone views alike) is on the new grid
+            kern.signal_times = times
+            geo["signal_times_reconfigured_after_construction"] = True
         if isinstance(wr, RecWriter):
             v.check(len(wr.meta) == 2, "kernel registers its parameters with the writer", meta=[m[0] for m in wr.meta])
         for n_ev in range(case["events"]):
